@@ -988,6 +988,15 @@ static void gen_dict_dec(hctx* h) {
           dict_dec_case(h, kind, 3, 2, idx, 12, 0, 12, 3, 1, "dict_one_byte_short");
           dict_dec_case(h, kind, 3, 2, idx, 12, 0, 12, 4, 0, "dict_count_too_large");
           dict_dec_case(h, kind, 3, 2, idx, 12, 2, 12, 0, 0, "dict_count_zero");
+          /* declared counts whose byte size wraps in 32 bits (count * value size = 2^32 * k + small): the 3-entry dictionary
+           * buffer must still be refused, never indexed */
+          { static const long long wraps[] = { 0x40000000LL, 0x40000001LL, 0x40000003LL, 0x20000000LL, 0x20000001LL, 0x60000000LL,
+                                                0x60000001LL, 0x7FFFFFFFLL, 0x3FFFFFFFLL, 0x1FFFFFFFLL, 0x10000000LL };
+            uint32_t idx3[12]; for (int q = 0; q < 12; q++) idx3[q] = (uint32_t)(q % 4);      /* index 3: behind the 3 entries that exist */
+            for (unsigned q = 0; q < sizeof wraps / sizeof wraps[0]; q++) {
+                dict_dec_case(h, kind, 3, 2, idx, 12, (int)(q % 3), 12, wraps[q], 0, "dict_count_wraps");
+                dict_dec_case(h, kind, 3, 2, idx3, 12, (int)((q + 1) % 3), 12, wraps[q], 0, "dict_count_wraps_index_behind");
+            } }
           dict_dec_case(h, kind, 3, 2, idx, 12, 2, 12, -1, 0, "dict_count_negative");
           dict_dec_case(h, kind, 3, 2, idx, 12, 1, 0, 3, 0, "output_count_zero");
           dict_dec_case(h, kind, 3, 2, idx, 12, 1, -5, 3, 0, "output_count_negative");
